@@ -7,6 +7,7 @@ class SortByClassWrapper(KDSubset):
         num_classes = dataset.getdim_class()
         classes = getall_as_tensor(dataset)
         indices = []
-        for i in range(num_classes):
+        # unlabeled samples (-1) sort before class 0
+        for i in range(-1, num_classes):
             indices += (classes == i).nonzero().squeeze(1).tolist()
         super().__init__(dataset=dataset, indices=indices)
